@@ -455,6 +455,16 @@ def check_builders(chk, rep, repo):
         okdt = not D[3] or dict(D[3]) in ({"dtype": ("builtin", "float")}, {"dtype": ("mod", "numpy.float64")})
         ok = full and okv and e.target[1][2] == i and e.target[2] == j and not e.guards and okdt
         rets = [r for r in w.events if r.kind == "return" and r.fn is w.entry]
+        import dataclasses as _dc
+        split = []
+        for r in rets:
+            # one `return distances` after `if normalize: distances = ...` is the two returns
+            if r.value is not None and r.value[0] == "sel" and r.value[1] == ("param", "normalize"):
+                split.append(_dc.replace(r, value=r.value[2], guards=r.guards + ((r.value[1], True),)))
+                split.append(_dc.replace(r, value=r.value[3], guards=r.guards + ((r.value[1], False),)))
+            else:
+                split.append(r)
+        rets = split
         alg = TermAlgebra()
         okn = False
         for r in rets:
